@@ -18,8 +18,8 @@ CLAIMS = {
              "mailbox, return Ok iff accepted, and a timed-out tell has enqueued nothing (rule T cut); every envelope embeds a strong reference (mpsc send "
              "precondition); the lifecycle monitor accepts Handled(id) only for the envelope just taken, exactly once, and leaves the loop only through a cause. "
              "Discharged by Verus for all inputs and all loop iterations.",
-        note=SEND_NOTE + " blocking_tell/blocking_ask WITH a timeout run through blocking_*_with_timeout_impl (std::thread + nested runtime), which is not under "
-             "contract: for them 'a send that reported Timeout is never handled' is checked by the always-on BOUNDED scenario blocking_timeout (labelled bounded, not counted as proved)."),
+        note=SEND_NOTE + " blocking_tell/blocking_ask WITH a timeout: blocking_*_with_timeout_impl satisfy r_blocking_tell_timeout / r_blocking_ask_timeout (rule H + rule T: "
+             "Err(Timeout) only with the log cut before the enqueue or, for ask, while waiting for the reply)." + " The thread-based timeout variants blocking_*_with_timeout_impl are under contract through rule H (DESIGN 8.13): the helper thread's body is read where it is written because the caller only blocks in recv (A14); what stays unverified for them is real time (A8), thread creation / panics inside tokio, and 'callable from inside a runtime'; the bounded scenario blocking_timeout still runs as supporting evidence."),
     "C02": dict(
         text="Frame clauses of every send relation: the only Enq/Rejected effect is on mailbox(self) - one queue for tell, ask, blocking and stop, no spawn per "
              "send, no try_send; stop is an in-band marker in that queue; the monitor requires the handler to run inline before the next poll. Order then follows from FIFO (A1).",
@@ -56,7 +56,7 @@ CLAIMS = {
     "C10": dict(
         text="Rule T contracts on tell_with_timeout / ask_with_timeout (and their erased forwarders): inner outcomes pass through unchanged with no extra dead letter, Err(Timeout{self.id, d, op}) "
              "exactly on the Elapsed branch with the caller's d; is_retryable == (self is Timeout). Deadline punctuality (never early / by the deadline) is tokio's timer (A8) and is not decided.",
-        note=SEND_NOTE + " The thread-based blocking timeout implementations are not under contract: the bounded real-time scenario blocking_timeout stands in on every run (labelled bounded)."),
+        note=SEND_NOTE + " The thread-based timeout variants blocking_*_with_timeout_impl are under contract through rule H (DESIGN 8.13): the helper thread's body is read where it is written because the caller only blocks in recv (A14); what stays unverified for them is real time (A8), thread creation / panics inside tokio, and 'callable from inside a runtime'; the bounded scenario blocking_timeout still runs as supporting evidence."),
     "C11": dict(
         text="Identity: spawn allocates the id by one atomic fetch_add(1) (freshness via a monotone floor, stable under interference) with type_name::<T>(); every constructor, clone, "
              "downgrade, upgrade and erased conversion copies id and channels (HandleView equality); is_alive / weak is_alive / upgrade are exactly the channel reads the property names.",
@@ -68,7 +68,9 @@ CLAIMS = {
     "C13": dict(
         text="record() logs exactly one dead letter with its arguments unchanged and bumps the counter by exactly one (test-utils); every send relation contains no dead letter on success and "
              "exactly one on failure with (self.id, M, reason matching the error, the operation label); timeout wrappers add one Timeout dead letter only on the Elapsed branch.",
-        note="blocking_*_with_timeout_impl (thread + nested runtime) are not under contract: the bounded scenarios blocking_timeout / blocking_api stand in on every run (labelled bounded). " + SEND_NOTE),
+        note="blocking_*_with_timeout_impl: exactly one dead letter per failed delivery, labelled by the inner operation (\"tell\" / \"ask\") when the inner operation failed and by the wrapper "
+             "(\"blocking_tell\" / \"blocking_ask\") when the deadline passed - that is what the code does and what the contract pins; the environment-fault path (tokio cannot build the private runtime) "
+             "returns Err(Send) without a dead letter and is carved out explicitly (no failing input can be produced for it)." + " The thread-based timeout variants blocking_*_with_timeout_impl are under contract through rule H (DESIGN 8.13): the helper thread's body is read where it is written because the caller only blocks in recv (A14); what stays unverified for them is real time (A8), thread creation / panics inside tokio, and 'callable from inside a runtime'; the bounded scenario blocking_timeout still runs as supporting evidence." + " " + SEND_NOTE),
     "C14": dict(
         text="has_path is proved sound and complete against graph reachability (completeness by a machine-checked pigeonhole lemma, unbounded); ask returns normally only if caller != callee and no chain "
              "callee->caller existed in the graph seen under the single lock acquisition in which the edge is then inserted; all four hooks run inside the task-local scope; erased and timeout asks delegate to ask.",
@@ -82,10 +84,12 @@ CLAIMS = {
         note="dyn dispatch and Box<dyn _> coercion are rustc's; the dispatchers for lifted methods are trusted glue. " + SEND_NOTE),
     "C17": dict(
         text="No-timeout blocking variants satisfy the async relations with blocking_send/blocking_recv and the blocking_* labels; dispatch sends Some(d) to the timeout implementation with d and None to the "
-             "no-timeout one; deprecated aliases equal blocking_*(msg, None) whatever timeout they get.",
-        note="blocking_*_with_timeout_impl (std::thread::spawn, nested runtime, std mpsc) is NOT under contract: a BOUNDED real-time scenario "
-             "(replay: blocking_timeout, blocking_api; full mailbox, stopped actor, call from inside a runtime) stands in for them on every run, labelled bounded in the evidence and not counted as proved.",
-        technique="contract-based deductive verification (Verus) of dispatch, no-timeout variants and deprecated aliases; bounded real-time scenarios on the real crate stand in for the two thread-based timeout implementations"),
+             "no-timeout one; deprecated aliases equal blocking_*(msg, None) whatever timeout they get. The timeout variants (helper thread + private runtime, extracted by rule H) satisfy "
+             "R_tell_timeout / R_ask_timeout for an untracked caller with the caller's d: same delivery, reply-integrity, error and dead-letter rules as tell / ask under a deadline.",
+        note="Rule H reads the helper thread's closure where it is written (sound because the caller does nothing but block in recv until the helper has sent: A14). Unverified for the timeout variants: "
+             "returning BY the deadline in real time (A8), std::thread::spawn failing or tokio panicking inside the helper, and 'callable from inside a runtime without panicking' (tokio's nested block_on rule; "
+             "the helper thread is what rule H recognises). The bounded real-time scenarios blocking_timeout / blocking_api still run on every C17 check as supporting evidence, never counted as proved.",
+        technique="contract-based deductive verification (Verus) of dispatch, no-timeout variants, deprecated aliases and the two thread-based timeout implementations (rule H); bounded real-time scenarios on the real crate as supporting evidence for wall-clock behaviour"),
     "C18": dict(
         text="All contracts of the feature-independent properties are re-discharged on the text extracted under each feature subset (quick: 6 subsets, thorough: all 16): the same relations and the same "
              "monitor postcondition hold, i.e. feature-gated code only adds effects the relations do not constrain. An obligation counts against C18 when it is discharged under one "
